@@ -690,10 +690,19 @@ func (s *Subscriber) distributeEvents() {
 // specified peer (publisher). If explicitSync is true, then the handler is
 // counted as in use by an explicit sync until doneWithHandler is called.
 func (s *Subscriber) getOrCreateHandler(peerID peer.ID, explicitSync bool) *handler {
-	expires := time.Now().Add(s.idleHandlerTTL)
-
 	s.handlersMutex.Lock()
 	defer s.handlersMutex.Unlock()
+
+	hnd := s.getOrCreateHandlerLocked(peerID)
+	if explicitSync {
+		hnd.expSyncs++
+	}
+
+	return hnd
+}
+
+func (s *Subscriber) getOrCreateHandlerLocked(peerID peer.ID) *handler {
+	expires := time.Now().Add(s.idleHandlerTTL)
 
 	// Check for existing handler, return if found.
 	hnd, ok := s.handlers[peerID]
@@ -707,11 +716,18 @@ func (s *Subscriber) getOrCreateHandler(peerID peer.ID, explicitSync bool) *hand
 		}
 		s.handlers[peerID] = hnd
 	}
-	if explicitSync {
-		hnd.expSyncs++
-	}
-
 	return hnd
+}
+
+// setPendingAnnounce makes amsg the pending announcement of its publisher's
+// handler, creating the handler if necessary, and returns the handler and the
+// announcement that was pending before.
+func (s *Subscriber) setPendingAnnounce(amsg *announce.Announce) (*handler, *announce.Announce) {
+	s.handlersMutex.Lock()
+	defer s.handlersMutex.Unlock()
+
+	hnd := s.getOrCreateHandlerLocked(amsg.PeerID)
+	return hnd, hnd.pendingMsg.Swap(amsg)
 }
 
 // doneWithHandler tells that an explicit sync, that obtained the handler from
@@ -785,11 +801,12 @@ func (s *Subscriber) watch() {
 		}
 
 		verifhook.Point("watch.recv", amsg.PeerID)
-		hnd := s.getOrCreateHandler(amsg.PeerID, false)
-		verifhook.Point("watch.gothandler", amsg.PeerID)
-
-		// Set the message to be handled by the waiting goroutine.
-		oldMsg := hnd.pendingMsg.Swap(&amsg)
+		// Get the handler and set the message to be handled by the waiting
+		// goroutine. Both are done under the handlers lock: a handler that
+		// has been handed out with nothing pending yet looks idle, and if it
+		// were removed in between, a sync would run on the orphaned handler
+		// beside the syncs of the handler that replaces it.
+		hnd, oldMsg := s.setPendingAnnounce(&amsg)
 		verifhook.Point("watch.swapped", amsg.PeerID)
 		// If rhw previous pending message was not nil, then there is an
 		// existing request to sync the ad chain.
